@@ -100,10 +100,34 @@ package queue
 //@ ghost var gRemoved int
 //@ ghost var gMetaWrites int
 //@ ghost var gScheduled int
+// The body is under contract: unless the wheel was stopped (shutdown: the entry stays in the spool and is read back
+// at start-up), the slot pushed carries exactly the caller's value and time, once, under the lock, and the dispatcher
+// is notified of that time. The ghost counter is the call-site view (trusted-ensures: ghost definition).
+//@ ghost var gSlotsHeld bool
+//@ ghost var gPushed int
+//@ ghost var gStopped int
+//@ import list "container/list"
+//@ import atomic "sync/atomic"
+//@ extern func (*TimeWheel).Add#LoadUint32$call(addr *uint32) (r uint32)
+//@   ensures r == gStopped
+//@ extern func (*TimeWheel).Add#Lock$call(m *sync.Mutex)
+//@   modifies gSlotsHeld
+//@   ensures gSlotsHeld
+//@ extern func (*TimeWheel).Add#Unlock$call(m *sync.Mutex)
+//@   requires gSlotsHeld
+//@   modifies gSlotsHeld
+//@   ensures gStopped != 1 ==> !gSlotsHeld
+//@ extern func (*TimeWheel).Add#PushBack$call(l *list.List, v any) (e *list.Element)
+//@   modifies gPushed
+//@   ensures gPushed == old(gPushed) + 1
 //@ func (*TimeWheel).Add
-//@   trusted
-//@   modifies gScheduled
-//@   ensures gScheduled == old(gScheduled) + 1
+//@   prop C01
+//@   modifies gScheduled, gSlotsHeld, gPushed, chanstate()
+//@   trusted-ensures gScheduled == old(gScheduled) + 1
+//@   assert-call (*list.List).PushBack #0 : gSlotsHeld && isType($v, "TimeSlot") && as($v, "TimeSlot").Value == value && as($v, "TimeSlot").Time == target
+//@   ensures gStopped != 1 ==> !gSlotsHeld
+//@   ensures gStopped != 1 ==> gPushed == old(gPushed) + 1
+//@   covers gStopped != 1
 // ---- C02: crash safety of the spool (ghost file system of prelude/fs.spec) ----
 //@ pure func metaP(q *Queue, id string) string = pjoin(q.location, id + ".meta")
 //@ pure func hdrP(q *Queue, id string) string = pjoin(q.location, id + ".header")
@@ -271,7 +295,7 @@ package queue
 //@ func (*queueDelivery).Commit
 //@   prop C02
 //@   requires qd != nil && qd.q != nil && qd.q.wheel != nil && qd.meta != nil && qd.meta.MsgMeta != nil
-//@   modifies qd.meta, qd.body, gScheduled
+//@   modifies qd.meta, qd.body, gScheduled, gSlotsHeld, gPushed, chanstate()
 //@   ensures gScheduled == old(gScheduled) + 1
 // Recovery: the metadata of an id can be read only when its metadata file exists; a retry is scheduled only for ids
 // whose metadata was read and whose header and body files exist; files are removed only for ids that are not scheduled.
